@@ -242,3 +242,134 @@ func vfC15CloseContention(buf int) (established bool, done bool, detail string) 
 	emB.Close()
 	return true, true, "all three calls completed"
 }
+
+// TestVerifC15SubscribeVsLastClose: the last subscriber of a type that has no emitter closes while
+// another Subscribe to that type is in flight (it has looked the node up holding the bus lock and waits
+// for the node lock the closing subscriber holds).  Whatever the bus does with the node, the new
+// subscription exists from the moment Subscribe returns: an emitter created afterwards must reach it.
+// Hook "n.rmsink" (node lock held, sink removed) is the gate.
+func TestVerifC15SubscribeVsLastClose(t *testing.T) {
+	res := vfh.NewResult()
+	defer func() {
+		if err := res.Write(); err != nil {
+			t.Fatal(err)
+		}
+	}()
+	res.Rule = "one case = one gate-driven scenario: last subscriber of an emitter-less type closes (gated with the node lock held) while a second Subscribe holds the bus lock; then an emitter is created and emits; non-trivial = the second Subscribe held the bus lock while the first was gated"
+	for attempt := 0; attempt < 6; attempt++ {
+		buf := []int{0, 1, 4}[attempt%3]
+		typed2 := attempt%2 == 0
+		established, cls, detail := vfC15SubVsLastClose(buf, typed2)
+		res.Count(1, 6)
+		res.Case(fmt.Sprintf("buf%d-two%v-established-%v", buf, typed2, established))
+		if attempt == 0 {
+			res.Sample(map[string]any{"scenario": "S1=Subscribe(B); no emitter; S1.Close() gated at n.rmsink; S2=Subscribe(B) takes the bus lock; gate released; E=Emitter(B); Emit; S2 must receive", "outcome": detail})
+		}
+		if cls != "" {
+			res.AddMismatch(vfh.Mismatch{Class: cls, Walk: -1, Step: attempt, What: detail})
+			return
+		}
+	}
+}
+
+func vfC15SubVsLastClose(buf int, twoTypes bool) (established bool, cls string, detail string) {
+	b := NewBus().(*basicBus)
+	typB := reflect.TypeOf(vfC15EvB{})
+	s1, err := b.Subscribe(new(vfC15EvB), BufSize(buf))
+	if err != nil {
+		panic(err)
+	}
+	s1ch := chanOf(s1)
+	gate := make(chan struct{})
+	atGate := make(chan struct{})
+	var gated atomic.Bool
+	VerifHook = func(ev string, typ reflect.Type, ch any, evt any) {
+		if ev == "n.rmsink" && typ == typB && ch == any(s1ch) && gated.CompareAndSwap(false, true) {
+			close(atGate)
+			<-gate // S1 holds node B's lock here, its sink is gone, no emitter: the node looks droppable
+		}
+	}
+	defer func() { VerifHook = nil }()
+	fin := make(chan string, 4)
+	go func() { s1.Close(); fin <- "close" }()
+	select {
+	case <-atGate:
+	case <-time.After(5 * time.Second):
+		close(gate)
+		return false, "", "Close never reached the gate"
+	}
+	var s2 event.Subscription
+	go func() {
+		var err error
+		if twoTypes {
+			s2, err = b.Subscribe([]any{new(vfC15EvB), new(vfC15EvC)}, BufSize(8))
+		} else {
+			s2, err = b.Subscribe(new(vfC15EvB), BufSize(8))
+		}
+		if err != nil {
+			panic(err)
+		}
+		fin <- "subscribe"
+	}()
+	// wait until the second Subscribe owns the bus lock (it then waits for the node lock)
+	for i := 0; i < 3000 && !established; i++ {
+		if b.lk.TryLock() {
+			b.lk.Unlock()
+			time.Sleep(time.Millisecond)
+		} else {
+			established = true
+		}
+	}
+	time.Sleep(5 * time.Millisecond)
+	close(gate)
+	got := map[string]bool{}
+	deadline := time.After(10 * time.Second)
+	for len(got) < 2 {
+		select {
+		case x := <-fin:
+			got[x] = true
+		case <-deadline:
+			return established, "stall-subscribe-vs-last-close", fmt.Sprintf("after the gate opened, finished only %v", got)
+		}
+	}
+	// the subscription S2 exists: an emitter created now must reach it
+	em, err := b.Emitter(new(vfC15EvB))
+	if err != nil {
+		panic(err)
+	}
+	done := make(chan struct{})
+	go func() {
+		em.Emit(vfC15EvB{E: "e3", N: 1})
+		em.Emit(vfC15EvB{E: "e3", N: 2})
+		close(done)
+	}()
+	select {
+	case <-done:
+	case <-time.After(10 * time.Second):
+		return established, "stall-subscribe-vs-last-close", "Emit never returned"
+	}
+	var recv []int
+	for empty := false; !empty; {
+		select {
+		case ev := <-s2.Out():
+			recv = append(recv, ev.(vfC15EvB).N)
+		default:
+			empty = true
+		}
+	}
+	listed := false
+	for _, ty := range b.GetAllEventTypes() {
+		if ty == typB {
+			listed = true
+		}
+	}
+	em.Close()
+	s2.Close()
+	if fmt.Sprint(recv) != "[1 2]" {
+		return established, "lost-event", fmt.Sprintf("S2 = Subscribe(B) returned before Emitter(B) was created and e3#1, e3#2 were emitted (both Emit calls returned), but S2 received %v (Subscribe raced with the Close of the last earlier subscriber of B; established=%v)", recv, established)
+	}
+	if !listed {
+		return established, "L2:type-not-listed", "GetAllEventTypes did not list B while S2 and the emitter were alive"
+	}
+	return established, "", fmt.Sprintf("S2 received %v", recv)
+}
